@@ -436,6 +436,31 @@ check(
     "tmpl=set_var,lit=tab,quote-in-inline-comment=same-line",
 )
 
+# ---- 9c. process histories (NOPP): alphabets consistent with the reference matcher -------------------------------------
+import re as _re
+
+
+def _m(sql):
+    return any(_re.match(p, sql, _re.IGNORECASE) for p in c16.P_PATTERNS)
+
+
+check("P_MATCH matches", _m(c16.P_MATCH), True)
+check("P_OTHER does not match", _m(c16.P_OTHER), False)
+for nid, stmts in c16.P_NOPPERS.items():
+    for sql in stmts:
+        check(f"first statement {nid} {sql!r} does not match", _m(sql), False)
+for cid, (stmts, where) in c16.P_CHANGES.items():
+    for sql in stmts:
+        check(f"change {cid} {sql!r} does not match", _m(sql), False)
+    check(f"change {cid} place", where == "conn1" or where in ("instance2", "instance2_with_t") or (isinstance(where, tuple) and where[0] == "conn2"), True)
+for f in c16.FIXTURE:
+    check(f"fixture {f!r} does not match P_PATTERNS", _m(f), False)
+check("quick first statements known", all(n in c16.P_NOPPERS for n in c16.P_NOPPERS_QUICK), True)
+check("quick changes known", all(n in c16.P_CHANGES for n in c16.P_CHANGES_QUICK), True)
+check("state diff", c16._state_diff("abcXdef", "abcYdef"), {"before": "abcXdef", "after": "abcYdef"})
+for tier, n in (("quick", len(c16.P_NOPPERS_QUICK) * len(c16.P_CHANGES_QUICK)), ("thorough", len(c16.P_NOPPERS) * len(c16.P_CHANGES))):
+    check(f"NOPP items {tier}", len([i for i in c16.items(tier) if i[0] == "NOPP"]), n)
+
 # ---- 10. enumeration sizes are what the bounds say ---------------------------------------------------------------------
 for tier in ("quick", "thorough"):
     its = c16.items(tier)
